@@ -33,7 +33,6 @@ RULE = ("Hypothesis: type spec from the full grammar x a value built from the ty
 ASSUMPTIONS = [
     "cases whose reference verdict is reject/unspecified are skipped (counted): the property is about values obtained by a conversion",
     "untagged unions whose serialised form is claimed by a different member on re-read are excluded (counted as ambiguous-union)",
-    "bytearray in into_data output is an unspecified cell (accepted everywhere bytes is, not in the documented scalar list)",
 ]
 
 INTERCHANGE_SCALARS = (str, bytes, int, bool, float, complex, type(None))
@@ -46,8 +45,6 @@ def non_interchange(d: t.Any, path: str = '$') -> t.Optional[str]:
     ty = type(d)
     if ty in INTERCHANGE_SCALARS:
         return None
-    if ty is bytearray:
-        return None   # unspecified cell
     if isinstance(d, INTERCHANGE_SCALARS):
         return None   # an instance of a user subclass of str/bytes/int/float/complex is still that scalar
     if ty in (list, tuple):
